@@ -1,5 +1,6 @@
 from __future__ import annotations
 
+import copy
 from collections import defaultdict
 from collections.abc import Mapping, Sequence
 from dataclasses import dataclass, field, replace
@@ -543,7 +544,16 @@ class ModelSpec:
         Create a copy of this `ModelSpec` instance with the nominated attributes
         mutated.
         """
-        return replace(self, **kwargs)
+        # State is copied so that the new instance can be (re)materialized
+        # without mutating the state of the instance it was derived from.
+        return replace(
+            self,
+            **{
+                "transform_state": copy.deepcopy(self.transform_state),
+                "encoder_state": copy.deepcopy(self.encoder_state),
+                **kwargs,
+            },
+        )
 
     def subset(self, terms_spec: FormulaSpec, **formula_kwargs: Any) -> ModelSpec:
         """
